@@ -27,7 +27,15 @@ def run(tier, seed):
         runs.append(("one name, larger budgets", mcfg.replace("Budget <- B1", "Budget <- B3")))
     mstates = 0
     for label, cfg in runs:
-        mc = vlib.tlc("MC_FrpcManager", cfg, workers=8, timeout=1800)
+        cov = label == "one name, refusals"
+        mc = vlib.tlc("MC_FrpcManager", cfg, workers=8, timeout=1800, coverage=cov)
+        if cov and mc.ok:
+            # vacuity guard: each of the seven actions of the composed machine fired (TLC -coverage, one entry per disjunct of MNext)
+            import re
+            fired = [int(g) for g in re.findall(r"<H line \d+, col \d+ to line \d+, col \d+ of module FrpcManager \([\d ]+\)>: \d+:(\d+)", mc.out)]
+            if len(fired) != 7 or min(fired) == 0:
+                raise vlib.Infra(f"FrpcManager: an action of the model never fired in the exhaustive run (coverage {fired}): the properties would be vacuous")
+            v.add_cov(manager_actions_fired=len(fired))
         if not mc.ok:
             raise vlib.Infra(f"FrpcManager ({label}): ideal model violates {mc.violated}\n{mc.out[-2000:]}")
         states += mc.distinct
